@@ -385,6 +385,6 @@ def all_tasks():
 
 def property_config(tasks, select):
     P = {}
-    P["C08"] = dict(decisive=select(tasks, ("C08.",)) + select(tasks, ("CT.has_", "CT.get_block")), chain=[], harness=dict(extra=[("harness.container_checks2", "run_c08")]))
+    P["C08"] = dict(decisive=select(tasks, ("C08.", "C17.copy")) + select(tasks, ("CT.has_", "CT.get_block")), chain=[], harness=dict(extra=[("harness.container_checks2", "run_c08")]))
     P["C17"] = dict(decisive=select(tasks, ("C17.", "C08.open", "C08.__enter__", "W.Entry", "S.Entry")), chain=[], harness=dict(extra=[("harness.container_checks2", "run_c17")]))
     return P
